@@ -12,7 +12,8 @@ LEVEL = 'proof'
 REQUIRED_THEOREMS = ['Properties.C02.stable_root', 'Properties.C02.rq_executed_forward_inverse', 'Properties.C02.rq_executed_inverse_forward',
                      'Properties.C02.coupling_inverse_forward', 'Properties.C02.autoregressive_inverse_exact', 'Properties.C02.composite_good', 'Properties.C02.linear_bin_roundtrip', 'Properties.C02.rq_program_roundtrip', 'Properties.C02.rq_program_logdet_negates', 'Properties.C02.exec_coupling_inverse_forward', 'Properties.C02.exec_rq_coupling_roundtrip', 'Properties.C02.exec_autoregressive_inverse_forward', 'Properties.C02.exec_made_rq_roundtrip', 'Properties.C02.exec_made_affine_roundtrip', 'Properties.C02.rq_tails_program_roundtrip', 'Properties.C02.quad_program_roundtrip', 'Properties.C02.exec_quad_coupling_roundtrip', 'Properties.C02.exec_rq_tails_coupling_roundtrip', 'Properties.C02.exec_made_rq_tails_roundtrip', 'Properties.C02.cubic_program_roundtrip', 'Properties.C02.linear_program_roundtrip', 'Properties.C02.exec_cubic_coupling_roundtrip', 'Properties.C02.exec_coupling_with_conditioner_roundtrip', 
                      'Properties.C02.exp_executed_roundtrip', 'Properties.C02.sigmoid_executed_roundtrip_iff', 'Properties.C02.tanh_roundtrip_threshold_counterexample', 'Properties.C02.leakyRelu_executed_roundtrip', 'Properties.C02.cauchy_executed_roundtrip', 'Properties.C02.logTanh_executed_roundtrip', 'Properties.C02.conv1x1_executed_roundtrip', 'Properties.C02.actnorm_executed_roundtrip', 'Properties.C02.permutation_executed_roundtrip', 'Properties.C02.squeeze_executed_roundtrip',
-    "Properties.C02.logdet_eq_neg_of_roundtrip", "Properties.C02.couplingRowMap_roundtrip", "Properties.C02.coupling_inverse_logdet_eq_neg_forward", "Properties.C02.coupling_rq_inverse_logdet_eq_neg_forward", "Properties.C02.coupling_linear_inverse_logdet_eq_neg_forward",]
+    "Properties.C02.logdet_eq_neg_of_roundtrip", "Properties.C02.couplingRowMap_roundtrip", "Properties.C02.coupling_inverse_logdet_eq_neg_forward", "Properties.C02.coupling_rq_inverse_logdet_eq_neg_forward", "Properties.C02.coupling_linear_inverse_logdet_eq_neg_forward",
+    "Properties.C02.ar_inverse_logdet_is_jacobian", "Properties.C02.ar_affine_inverse_logdet_is_jacobian", "Properties.C02.ar_rq_inverse_logdet_is_jacobian",]
 RULE = ("registry x parameter regimes (fresh, zeros, perturbed, wide) x {forward, inverse of forward outputs, inverse of independent in-range points}; "
         "the autoregressive inverse is followed pass by pass (model output of pass k must be the conditioner input of pass k+1); distinct = (entry, regime, "
         "direction, tag); non-trivial = not the identity")
